@@ -167,12 +167,12 @@ PROPS['C19']={
  ]}
 
 PROPS['C18']={
- 'bounds_statement':'decidable part only: record_artifacts / record_artifact / dir_entry_to_path / apply_left_strip / calculate_hashes / in_toto_run from MIR over a ghost file system (2-3 regular files with free contents, 1-2 path arguments, four strip-prefix lists, four algorithm lists, every chunking of every read, one optional read failure): exactly one entry per regular file keyed by the path minus the longest strip prefix, digests computed over exactly the file bytes once and in order, duplicate keys and unknown algorithms are errors; in_toto_run records materials before and products after the command and builds the link from exactly those results.',
- 'assumptions':UNIT_ASSUME+['NOT decided (system calls / FFI, no encoding within reach): the real directory walk (walkdir), symbolic links and link cycles, true SHA-2 digests (ring), the subprocess; the ghost walker yields directories before their entries and entries in name order',
+ 'bounds_statement':'decidable part only: record_artifacts / record_artifact / dir_entry_to_path / apply_left_strip / calculate_hashes / in_toto_run from MIR over a ghost file system (2-3 regular files with free contents, optionally a symbolic link to a file with a relative / absolute / dot-dot target or a chain of two links, 1-2 path arguments, four strip-prefix lists, four algorithm lists, every chunking of every read, one optional read failure): exactly one entry per regular file keyed by the path minus the longest strip prefix, digests computed over exactly the file bytes once and in order, duplicate keys and unknown algorithms are errors; in_toto_run records materials before and products after the command and builds the link from exactly those results.',
+ 'assumptions':UNIT_ASSUME+['NOT decided (system calls / FFI, no encoding within reach): the real directory walk (walkdir), symbolic links to directories and link cycles, true SHA-2 digests (ring), the subprocess; the ghost walker yields directories before their entries and entries in name order',
                             'ring::digest modelled as an injective function of exactly the bytes fed (concrete inputs use the real SHA-2)'],
  'obligations':[
    {'name':'apply_left_strip','module':'harness.C18','cls':'LeftStrip','quick':{'plen':3,'nprefix':2},'thorough':{'plen':4,'nprefix':3}},
-   {'name':'record_artifacts','module':'harness.C18','cls':'Record','quick':{'flen':2},'thorough':{'flen':3},'validate':{'quick':12,'thorough':48}},
+   {'name':'record_artifacts','module':'harness.C18','cls':'Record','quick':{'flen':2,'nlinks':3},'thorough':{'flen':3,'nlinks':5},'validate':{'quick':12,'thorough':48}},
    {'name':'in_toto_run_sequencing','module':'harness.C18','cls':'RunSequencing','quick':{},'thorough':{}},
  ]}
 
